@@ -11,6 +11,7 @@
 import argparse
 import json
 import os
+import re
 import subprocess
 import sys
 import tempfile
@@ -19,6 +20,7 @@ import time
 VERIF = os.path.dirname(os.path.abspath(__file__))
 sys.path.insert(0, VERIF)
 REPO = os.environ.get('VERIF_REPO', '/repo')
+PROOF_INTERNAL = re.compile(r'^[^:]*:(inv\.(entry|preserve)|variant)[#@]')
 VENV_PY = '/venv/bin/python'
 
 
@@ -85,6 +87,12 @@ def main():
                 ledger[r['unit']] = sorted(classes)
         else:
             for c in ledger.get(r['unit'], []):
+                if c not in classes and PROOF_INTERNAL.match(c) and not r['errors']:
+                    # the obligations of a loop clause (invariant entry / preservation, variant) belong to a loop STATEMENT: every loop
+                    # present in the source either runs under its clause (obligations generated) or stops generation (`errors`), so a
+                    # class of this kind can only be absent when the iteration is spelled without that loop (any()/all() over a
+                    # generator, a comprehension). The contract-level obligations (pre@call, post, yield, key, assert, ...) stay strict.
+                    continue
                 if c not in classes:
                     failed_obls.append((r['unit'], c, 'ungenerated', 'ledger obligation class was not generated from the current tree'))
             if r['unit'] not in ledger:
@@ -232,7 +240,8 @@ def main():
         'backends': per_backend, 'solver_seconds': round(solver_s, 2),
         'functions_under_contract': functions,
         'units': [{'unit': r['unit'], 'vcs': len(r['vcs']), 'paths': r.get('paths'), 'errors': r['errors'],
-                   'probes': r['probes'], 'wall_s': r.get('wall_s')} for r in results],
+                   'probes': r['probes'], 'wall_s': r.get('wall_s'),
+                   **({'inlined_helpers': r['inlined_helpers']} if r.get('inlined_helpers') else {})} for r in results],
         'undischarged': [{'unit': u, 'obligation': n, 'status': s, 'detail': d[:300]} for u, n, s, d in failed_obls],
         'linkage': linkage,
         'order_scan': order_scan,
